@@ -12,19 +12,24 @@ PROPS = {
                         "ERRNO_RETRIES / USE_MSG_WAITALL are arbitrary but fixed during a call"],
     },
     "C06": {
-        "modules": ["specs.socket_model", "specs.pystruct", "specs.seqdict", "contracts.socketutil", "contracts.protocol"],
+        "modules": ["specs.socket_model", "specs.pystruct", "specs.seqdict", "contracts.socketutil", "contracts.protocol", "contracts.wire_roundtrip"],
         "contracts": ["Pyro5.protocol.SendingMessage.__init__", "Pyro5.protocol.ReceivingMessage.__init__",
                       "Pyro5.protocol.ReceivingMessage.validate", "Pyro5.protocol.ReceivingMessage.add_payload",
                       "Pyro5.protocol.recv_stub", "Pyro5.socketutil.SocketConnection.recv", "Pyro5.socketutil.receive_data"],
+        "lemmas": ["C06:wire-roundtrip"],
         "harness": "replay/c06.py",
         "explanation": "encoder proved to emit header ++ exact tiling of annotation chunks ++ payload (spec functions tile/off, loop "
                        "invariant, size check before anything is built); decoder proved to accept only payloads whose chunk walk "
                        "(spec function wpos) ends exactly at annotations_size, with every log entry equal to the bytes of its chunk; "
                        "recv_stub proved to consume exactly 40+annotations_size+data_size bytes, to refuse after 6 or 40 bytes "
-                       "(too-large: at 40, before the body), and to raise body errors only after the whole message was consumed",
+                       "(too-large: at 40, before the body), and to raise body errors only after the whole message was consumed.  "
+                       "Lemma wire-roundtrip (over the encoder's and the receiver's postconditions, 90 small proof steps incl. five inductions over the chunk index): "
+                       "the bytes the encoder is allowed to produce, placed on a stream, can only be received as the message that was encoded - same type, serializer id, "
+                       "sequence number, flags (COMPRESSED cleared), correlation id, the same annotation ids and values in the same order, the same payload (through zlib when "
+                       "compressed), and exactly those bytes are consumed",
         "assumptions": ["struct big-endian layouts, zlib round trip (uninterpreted compress/decompress/valid), ascii codec pair: specs/pystruct.py, validated against the real libraries in replay/c06.py (bounded)",
-                        "the composition decode(encode(f)) == f from the two contracts (tile/off vs wpos, an induction over the chunk index) is NOT machine checked: "
-                        "it is covered only by the bounded native round trip in replay/c06.py",
+                        "lemma wire-roundtrip: the induction principle over the chunk index and the syntactic instantiation of universally quantified contract clauses / "
+                        "definitions at a term are trusted; a Python dict has pairwise distinct keys; the bytes sent are the bytes read (C17 contracts + TCP)",
                         "annotations=None and memoryview values with itemsize > 1 are outside the encoder contract's precondition"],
     },
     "C09": {
@@ -76,8 +81,10 @@ PROPS.update({
                     "contracts": ["Pyro5.protocol.ReceivingMessage.__init__", "Pyro5.protocol.ReceivingMessage.validate", "Pyro5.protocol.ReceivingMessage.add_payload"]},
                    {"modules": ["specs.socket_model", "specs.pystruct", "specs.seqdict", "specs.opaque", "specs.daemon_model", "contracts.server_loops"],
                     "contracts": ["Pyro5.svr_threads.SocketServer_Threadpool.events", "Pyro5.svr_threads.SocketServer_Threadpool.loop",
-                                  "Pyro5.svr_multiplex.SocketServer_Multiplex.events"]}],
-        "harness": "replay/dispatch.py",
+                                  "Pyro5.svr_multiplex.SocketServer_Multiplex.events"]},
+                   {"modules": ["specs.socket_model", "specs.seqdict", "specs.opaque", "specs.daemon_model", "contracts.threadpool"],
+                    "contracts": ["Pyro5.svr_threads.Worker.run", "Pyro5.svr_threads.Pool.notify_done", "Pyro5.svr_threads.Pool.process"]}],
+        "harness": ["replay/dispatch.py", "replay/c18.py"],
         "explanation": "exception containment proved against the weakest callee contracts (handleRequest / _handshake / _clientDisconnect may raise ANY Exception): "
                        "nothing escapes the per-connection job of the thread server (so the worker always returns to the pool), the refusal path, the multiplex "
                        "per-connection handler and accept path (except ConnectionClosedError when the listening socket itself is gone); recv_stub raises only its declared "
@@ -86,7 +93,10 @@ PROPS.update({
                        "header and payload bytes, whatever the length fields say.  Third group: the thread server's accept path - events() turns an accepted connection into exactly "
                        "one job offered to the pool once, denies (with a reason) exactly the jobs the pool refuses, and lets only OS errors of select/accept escape, before any "
                        "job exists; loop() contains those, so that only the caller's own loop condition can end the request loop with an exception; the multiplex server's events() (loop invariant over the "
-                       "event sockets) lets only ConnectionClosedError from the accept path (listening socket gone) and the owner's housekeeping hook escape.",
+                       "event sockets) lets only ConnectionClosedError from the accept path (listening socket gone) and the owner's housekeeping hook escape.  Fourth group (shared with C18): "
+                       "the worker side of 'never strands a worker' - Worker.run calls the job in its slot exactly once, whatever the job raises, clears the slot BEFORE it reports done "
+                       "(so a job handed over right after notify_done is never lost) and always reports done; notify_done puts the worker back among the idle ones (or tells it to exit); "
+                       "process hands a job only to a worker that is idle or new.",
         "assumptions": _COMMON_ASSUME + ["liveness (a silent peer blocking a read without COMMTIMEOUT), resource exhaustion and the scheduler are outside the technique",
                                          "accept path: the pool is open while the loop runs; OS-raised errors carry (errno, text); the multiplex server's loop() (selector "
                                          "bookkeeping around events()) is covered by the bounded harness only",
@@ -113,16 +123,16 @@ PROPS.update({
         "modules": _DISPATCH_MODS + ["contracts.client_invoke"],
         "contracts": [_HR, "Pyro5.server.Daemon._handshake", "Pyro5.server.Daemon._sendExceptionResponse#body", "Pyro5.client.Proxy._pyroInvoke"],
         "groups": [{"modules": ["specs.socket_model", "specs.pystruct", "specs.seqdict", "specs.opaque", "contracts.callcontext"],
-                    "contracts": ["Pyro5.callcontext._CallContext.from_global"]}],
+                    "contracts": ["Pyro5.callcontext._CallContext.from_global", "Pyro5.callcontext._CallContext.to_global"]}],
         "harness": ["replay/dispatch.py", "replay/c03.py"],
         "explanation": "at every point where handleRequest runs user code the thread-local context holds this request's connection, sequence number, flags, serializer "
                        "id, annotations and a correlation id set during this request; every message sent by handleRequest, _handshake and _sendExceptionResponse carries only "
                        "daemon annotations plus annotations written during this request (ghost provenance on the annotation dict objects); the response-annotation dict "
                        "left by an earlier request is replaced by a fresh object at the start of every request and handshake (identity, which also cuts the sharing with a "
-                       "oneway thread).  Second contract group: _CallContext.from_global (what a oneway-call thread starts from) overwrites every one of the eight context fields with the snapshot's value - nothing the thread had before survives.",
+                       "oneway thread).  Second contract group: _CallContext.to_global (the snapshot handed to a oneway-call thread) is a NEW dict holding exactly the eight context fields with their current values (not the live attribute dictionary, so later requests on the dispatching thread do not reach it); _CallContext.from_global (what the oneway-call thread starts from) overwrites every one of the eight context fields with the snapshot's value - nothing the thread had before survives.",
         "assumptions": _COMMON_ASSUME + ["threading.local gives each thread its own context object", "client side: after _pyroInvoke the thread's response annotations are this reply's annotations or a dict created during this call "
                                          "(never one left by an earlier call), also on failure",
-                                         "the oneway thread's to_global/from_global copy is covered by the bounded native harness only"],
+                                         "that the oneway thread is started with to_global()'s snapshot and calls from_global on it (three lines in Daemon.handleRequest / _OnewayCallThread.run) is part of the dispatch contract's frame / the bounded harness; the values in the snapshot are shared by reference (the response_annotations dict object itself is shared until either side rebinds it - see fix 0299028)"],
     },
     "C07": {
         "modules": _DISPATCH_MODS,
@@ -231,17 +241,26 @@ PROPS.update({
     },
     "C19": {
         "modules": ["specs.socket_model", "specs.pystruct", "specs.seqdict", "specs.opaque", "specs.strings", "contracts.uri"],
-        "contracts": ["Pyro5.core.URI._parseLocation", "Pyro5.core.URI.location", "Pyro5.core.URI.__eq__", "Pyro5.core.URI.__setstate__"],
-        "lemmas": ["C19:loc_roundtrip"],
+        "contracts": ["Pyro5.core.URI._parseLocation", "Pyro5.core.URI.location", "Pyro5.core.URI.__eq__", "Pyro5.core.URI.__setstate__",
+                      "Pyro5.core.URI.__init__", "Pyro5.core.URI.__str__", "Pyro5.core.URI.__hash__"],
+        "lemmas": ["C19:loc_roundtrip", "C19:uri_text_roundtrip"],
         "harness": "replay/c19.py",
         "explanation": "_parseLocation proved against an exact string-level specification per location form (unix socket, host:port with the first ':' as separator "
                        "and int() of the rest or the default port, bracketed IPv6) and to refuse exactly the invalid inputs; the `location` property proved to print "
                        "'[host]:port' / 'host:port' / './u:name' / None from the state; lemma loc_roundtrip (over the two contracts): for every state the parser can "
                        "produce from a unix-socket or host:port location, the printed location is accepted again and parses to the same (sockname, host, port); "
-                       "__eq__ holds exactly when the five state components are equal; __setstate__ (the path behind URI(uri) copies, copy.copy and every serializer's re-creation) takes the five components over unchanged, port 0 and None included.",
+                       "__eq__ holds exactly when the five state components are equal; __setstate__ (the path behind URI(uri) copies, copy.copy and every serializer's re-creation) takes the five components over unchanged, port 0 and None included.  __init__ (PYRO / PYRONAME texts): the text is split by the uri pattern into protocol / object / location, the protocol upper-cased, the object "
+                       "taken literally, the location parsed by _parseLocation with the name-server port (PYRONAME) or no default (PYRO, which must have a location); refused exactly for a "
+                       "non-matching text, an unknown protocol, PYRO without location or an invalid location.  __str__: protocol ':' object, then '@' location exactly when there is one.  "
+                       "__hash__: a function of exactly the five components __eq__ compares.  Lemma uri_text_roundtrip: the printed text of a uri that __init__ produced is split by the uri "
+                       "pattern into the same protocol, the same object and exactly the printed location (none when none was printed) - with loc_roundtrip this is URI(str(u)) == u "
+                       "component by component for PYRO / PYRONAME uris with unix-socket or host:port locations.",
         "assumptions": ["SMT string theory for str operations; int() through int_parses/int_val with int('%d' % n) == n; the IPv6 regex as specified in specs/strings.py "
                         "(validated against `re` on all strings <= 5 over an 8-letter alphabet: bounded)",
-                        "NOT decided deductively (bounded native harness only): the bracketed IPv6 round trip, URI.__init__/uriRegEx, __str__, __hash__, PYROMETA, the proxy state and serializer paths",
+                        "the uri pattern (uriRegEx) as specified in specs/strings.py uri_split for texts without a newline (validated against `re` exhaustively on short strings and on 20k sampled ones: bounded); "
+                        "str.upper uninterpreted with upper('PYRO') == 'PYRO', upper('PYRONAME') == 'PYRONAME'; hash() of the state tuple is a function of its components; the premises of "
+                        "lemma uri_text_roundtrip restate the postconditions of __init__ / __str__ / location by hand",
+                        "NOT decided deductively (bounded native harness only): the bracketed IPv6 round trip, texts containing newlines, PYROMETA (object is a tag set), the proxy state and serializer paths",
                         "string obligations are decided by cvc5 where z3 gives up; lemma hints are proved before they are used"],
     },
     "C20": {
@@ -259,12 +278,14 @@ PROPS.update({
                         "fidelity of JSON and of the remote call itself (C01/C03)"],
     },
     "C01": {
-        "modules": ["specs.socket_model", "specs.pystruct", "specs.seqdict", "specs.opaque", "specs.daemon_model", "contracts.serial_symmetry"],
+        "modules": ["specs.socket_model", "specs.pystruct", "specs.seqdict", "specs.opaque", "specs.daemon_model", "contracts.serial_symmetry", "contracts.msgpack_ext"],
         "contracts": ["Pyro5.serializers.SerializerBase.recreate_classes"] +
                      ["Pyro5.serializers.%s.%s" % (c, m) for c in ("SerpentSerializer", "MarshalSerializer", "JsonSerializer", "MsgpackSerializer")
                       for m in ("dumps", "dumpsCall", "loads", "loadsCall")] +
-                     ["Pyro5.serializers.MsgpackSerializer.default#long", "Pyro5.serializers.MsgpackSerializer.ext_hook#long"],
-        "lemmas": ["C01:msgpack-long-roundtrip"],
+                     ["Pyro5.serializers.MsgpackSerializer.default#long", "Pyro5.serializers.MsgpackSerializer.ext_hook#long"] +
+                     ["Pyro5.serializers.MsgpackSerializer.%s#%s" % (f, k) for f in ("default", "ext_hook") for k in ("complex", "datetime", "date")] +
+                     ["Pyro5.serializers.MsgpackSerializer.ext_hook#unknown-code"],
+        "lemmas": ["C01:msgpack-long-roundtrip", "C01:msgpack-ext-roundtrip"],
         "harness": "replay/c01.py",
         "explanation": "what Pyro's own code contributes to the value mapping is proved symmetric: recreate_classes equals the structural spec function `recreated` "
                        "(a set / list / tuple comes back as the same container with EVERY element replaced by its own re-creation, a class-tagged dict goes whole and once "
@@ -273,14 +294,18 @@ PROPS.update({
                        "exactly (object, method, vargs, kwargs) unconverted (marshal: every positional and keyword argument through the same `marshallable` conversion "
                        "that dumps applies to a result; absent kwargs stay None), loads and loadsCall make exactly one decoder call with the same fixed option set on "
                        "exactly the payload, and re-create vargs, kwargs and results with the same function; msgpack's `long` extension (integers beyond 64 bit): default(n) is ExtType(0x31, ASCII decimal "
-                       "text of n), ext_hook(0x31, d) is the integer d spells, and (lemma over the two contracts) ext_hook undoes default for every integer.  The library codecs' own value mapping (lossless core, "
+                       "text of n), ext_hook(0x31, d) is the integer d spells, and (lemma over the two contracts) ext_hook undoes default for every integer; the other extension branches of default / ext_hook "
+                       "(complex 0x30 = two doubles real, imag; naive datetime 0x32 = one double POSIX timestamp, aware datetimes refused with SerializeError; date 0x33 = ordinal as native long; any other "
+                       "code refused) are each proved to be exactly the library pair applied to the value / payload (so e.g. decoding cannot depend on the sign of the timestamp), and lemma "
+                       "msgpack-ext-roundtrip composes them: ext_hook undoes default for complex and date values, and for datetimes up to the library's own fromtimestamp(timestamp(d)).  The library codecs' own value mapping (lossless core, "
                        "tuples as lists, ...), the default()/ext_hook conversions, compression (C06 proves the frame transparent) and the end-to-end positions "
                        "(echo method, batch, stream) are observed by the bounded harness only.",
         "assumptions": ["serpent / json / marshal / msgpack encoders and decoders are uninterpreted functions of (input, options) that may raise; that they invert each other on "
                         "the lossless core is NOT proved (bounded harness: ~2.4k quick / ~37k thorough generated values x 4 serializers x positions, compression on/off)",
                         "decoded literals are plain data of exactly one builtin container type or atoms; UTF-8 encode/decode as inverse partial functions",
-                        "JsonSerializer.default / MsgpackSerializer.default / ext_hook / object_hook are handed to the library by reference; apart from msgpack's integer "
-                        "extension their bodies are covered by the harness (and C04 for object_hook's dict_to_class); int(str(n)) == n and ASCII encode/decode as inverse "
+                        "JsonSerializer.default / MsgpackSerializer.default / ext_hook / object_hook are handed to the library by reference; apart from msgpack's extension "
+                        "branches (struct 'd'/'dd'/'l', datetime.timestamp/fromtimestamp, date.toordinal/fromordinal, complex parts as uninterpreted library pairs; the set / uuid / decimal / "
+                        "array / class_to_dict branches of default are not under contract) their bodies are covered by the harness (and C04 for object_hook's dict_to_class); int(str(n)) == n and ASCII encode/decode as inverse "
                         "functions are assumed (validated in replay/c19.py)"],
     },
     "C04": {
